@@ -25,7 +25,9 @@ ReqLayouts ==
        Stmt("require", "block", "", <<R(C2, "v2.0.0", TRUE, "", ""), R(D, "v1.0.0", TRUE, "", "")>>)>>,
      <<Line1("require", R(A, "v1.0.0", FALSE, "", "")), Stmt("require", "block", "", <<R(B, "v1.0.0", TRUE, "", ""), R(A, "v1.1.0", TRUE, "", "dup")>>)>>,
      <<Line1("require", R(A, "v1.1.0", FALSE, "", "")), Line1("require", R(A, "v1.0.0", FALSE, "first", "")), Line1("require", R(B, "v1.0.0", TRUE, "", ""))>>,
-     <<Stmt("require", "block", "", <<R(A, "v1.0.0", FALSE, "", ""), R(A, "v1.1.0", FALSE, "", ""), R(B, "v1.1.0", FALSE, "", "")>>)>>}
+     <<Stmt("require", "block", "", <<R(A, "v1.0.0", FALSE, "", ""), R(A, "v1.1.0", FALSE, "", ""), R(B, "v1.1.0", FALSE, "", "")>>)>>,
+     \* commented lines that are not the first of their block (the harness also renders them set off by an empty line)
+     <<Stmt("require", "block", "", <<R(A, "v1.0.0", FALSE, "", ""), R(B, "v1.0.0", FALSE, "blead", ""), R(C2, "v2.0.0", TRUE, "clead", "ceol")>>)>>}
 \* other directives whose blocks must come out in their documented order
 Others(gov) ==
     <<Line1("module", [v |-> "example.com/m", cb |-> "", cs |-> ""])>>
